@@ -208,6 +208,18 @@ def loop_adjust():
 PRELUDE2 = "int jpv_t, jpv_t2; const void *jpv_h; int jpv_cnt;\n"
 
 
+def c_precompute():
+    pre = [fresh("precomputed"), fresh("params"), fresh("attrs"), "attrs->length <= (size_t)2147483647", "__CPROVER_is_fresh(attrs->attrs, attrs->length * sizeof(*attrs->attrs))",
+           "jpv_h == attrs->attrs", "jpv_cnt == 0", "0 <= jpv_t"]
+    post = ["((size_t)jpv_t < attrs->length) ==> jpv_cnt == 1", "((size_t)jpv_t >= attrs->length) ==> jpv_cnt == 0"]
+    return req(*pre) + assigns("*precomputed", "jpv_cnt") + ens(*post)
+
+
+def loop_precompute():
+    return {1: "__CPROVER_assigns(@LOCALS@, i, jpv_cnt, precomputed->prodexp)\n__CPROVER_loop_invariant(0 <= i && (size_t)i <= attrs->length)\n"
+               "__CPROVER_loop_invariant(jpv_cnt == ((jpv_t < i) ? 1 : 0))\n__CPROVER_decreases(attrs->length - (size_t)i)\n"}
+
+
 def units():
     us = []
     for q, deleg in (("wkdibe::keygen", True), ("wkdibe::nondelegable_keygen", False)):
@@ -233,12 +245,19 @@ def units():
     REC = "{ if (jpv_t >= 0 && __CPROVER_same_object(self, jpv_h) && (size_t)__CPROVER_POINTER_OFFSET(self) == (size_t)jpv_t * sizeof(Projective_Fq)) jpv_cnt++; }"
     for q, c, lc, can, extra_stub in (("wkdibe::setup", c_setup(), loop_setup(), ("params->l == l", "params->l == l + 1"), {"G1::random_generator": REC}),
                                       ("wkdibe::resamplekey", c_resample(), loop_resample(), ("(resampled->l == sk->l)", "(resampled->l == sk->l + 1)"), None),
-                                      ("wkdibe::adjust_nondelegable", c_adjust(), loop_adjust(), ("sk->l <= parent->l", "sk->l < parent->l"), None)):
+                                      ("wkdibe::adjust_nondelegable", c_adjust(), loop_adjust(), ("sk->l <= parent->l", "sk->l < parent->l"), None),
+                                      ("wkdibe::precompute", c_precompute(), loop_precompute(), ("jpv_cnt == 1", "jpv_cnt == 2"),
+                                       {"G1::multiply(const G1 &, const BigInt<256> &)": "{ if (__CPROVER_same_object($1, jpv_h) && (size_t)__CPROVER_POINTER_OFFSET($1) == (size_t)jpv_t * sizeof(wkdibe_Attribute) + __builtin_offsetof(wkdibe_Attribute, id)) jpv_cnt++; }"})):
         u = BVUnit(q, {q: c}, P, unwind=12, loop_contracts={q: lc}, timeout=900, spec_prelude=PRELUDE2,
                    label=q + ": slot bookkeeping for every slot count (loop contract)", extra=["--object-bits", "11"], canary=can,
                    note="loop contracts on the slot loop(s), counts symbolic; every group / sampling callee is a no-op stub (only the integer side is under contract here)")
         u.stub_factory = (lambda tu, e=extra_stub: more_stubs(tu, e))
         u.harness_pre = HAVOC
+        if q == "wkdibe::precompute":
+            u.props = ["C14", "C12", "C13", "C17"]
+            u.label = "wkdibe::precompute: every attribute of a list of any length contributes exactly once (loop contract)"
+            u.checks = False        # &params.h[attr.idx] is only formed (stub); attr.idx < params.l is the caller's obligation
+            u.extra = list(u.extra) + ["--bounds-check", "--pointer-check", "--signed-overflow-check", "--conversion-check"]
         if q == "wkdibe::resamplekey":
             # &params.h[sk.b[i].idx] is only formed, never dereferenced here (the group operation is a stub); that every listed index is below
             # params.l is the key's well-formedness (GROUP units), not expressible for an unbounded array without a quantifier: no pointer-arithmetic check
